@@ -195,7 +195,7 @@ fn main() {
         level: "fault_enumeration",
         rule: "for each carousel configuration (FEC scheme x in-band/FDT-only FTI x in-band/FDT-only CENC x cenc x 1-3 objects x delay/interval carousel x FullFDT/ObjectsBeingTransferred x single/multi-packet FDT x interleave x FDT protected by the same scheme x buffer / stream sources x FDT instance ids starting at 0 or just below the 2^20 wrap) one long stream is produced on a virtual clock and a FRESH receiver is started at EVERY packet offset of one full carousel cycle; it is fed the stream from that offset up to the index by which every object had two further full transfers and the FDT two further full emissions (computed from Start/Stop events and the independent decoder); oracle: every object has a Complete writer with exact bytes and its last writer is not in error; per configuration: the sender neither panics nor hangs and every finished carousel round carries every source symbol; a case is one chunk of join offsets of one configuration, non-trivial when at least one writer completed; distinct = (configuration, chunk)",
         assumptions: vec![
-            "receiver: no object timeout, FDT expiry check on with a 1 h FDT duration (expiry interplay is C19's)".into(),
+            "receiver: no object timeout, max_objects_error 0 and 4 alternating over the join offsets, FDT expiry check on with a 1 h FDT duration (expiry interplay is C19's)".into(),
             "carousel parameters leave room for the objects between FDT repetitions (FDT has absolute priority)".into(),
             "an Error followed by a successful re-download inside the window is tolerated (counted)".into(),
         ],
@@ -336,7 +336,9 @@ fn main() {
                 joins += 1;
                 let rx = util::guarded(|| {
                     let mut o = RxOpts::default();
-                    o.config.max_objects_error = 0;
+                    // receivers that remember failed objects (a late joiner may fail an object once before it knows the
+                    // FDT: the next cycle must clear that) alternate with receivers that do not
+                    o.config.max_objects_error = if j % 2 == 0 { 0 } else { 4 };
                     receive(&b.run.spec.endpoint(), b.run.stream[j..end].iter().map(|p| (p.bytes.as_slice(), p.t)), &o, None)
                 });
                 let wit = |extra: serde_json::Value| json!({"config": b.cfg.name(), "join_offset": j, "window_end": end, "detail": extra,
@@ -364,7 +366,7 @@ fn main() {
                         cr.violations.push(Violation::new("late_joiner_misses_object", format!(
                             "{}: receiver joining at packet {} does not deliver object {} (TOI {}) within two further full cycles (window end {}); writers: {:?}", b.cfg.name(), j, k, toi, end, traces))
                             .with("fec", b.cfg.fec.name()).with("inband_fti", b.cfg.inband_fti).with("full_fdt", b.cfg.full_fdt).with("cenc", b.cfg.cenc.name()).with("inband_cenc", b.cfg.inband_cenc)
-                            .with("join_kind", join_kind).with("no_writer", ws.is_empty())
+                            .with("join_kind", join_kind).with("no_writer", ws.is_empty()).with("receiver_keeps_failed_objects", j % 2 == 1)
                             .witness(wit(json!({"object": k, "writers": traces}))));
                     }
                     if let Some(w) = ws.last() {
